@@ -1,9 +1,14 @@
 //! `sim` — deterministic simulator for geo-booleanop (see /verif/DESIGN.md).
 mod batch;
+mod c09;
+mod c12;
 mod c17;
 mod c18;
+mod geom;
 mod heap;
 mod rng;
+mod sched;
+mod simhooks;
 
 use batch::{Extra, Plan, Tier, World};
 use serde_json::{json, Map, Value};
@@ -46,6 +51,60 @@ fn plan_c17(tier: Tier) -> (Plan, Extra) {
     (plan, extra)
 }
 
+fn plan_c09(tier: Tier) -> (Plan, Extra) {
+    let workers = batch::workers_default();
+    let plan = match tier {
+        Tier::Quick => Plan { runs: 200_000, budget_s: 120.0, selftest_runs: 2000, workers },
+        Tier::Thorough => Plan { runs: 20_000_000, budget_s: 3000.0, selftest_runs: 20000, workers },
+    };
+    let mut coverage = Map::new();
+    coverage.insert("components".into(), json!({
+        "real": ["geo_booleanop::boolean (all four BooleanOp impls, f64 and f32, whole pipeline)", "geo_booleanop::splay", "geo-types", "robust"],
+        "simulated": ["the two fast-path decisions (buggify switches through the verif-hooks seam)", "event budget"],
+        "stubbed": []}));
+    coverage.insert("fault_kinds".into(), json!(["fast path disabled: bounding-box shortcut", "fast path disabled: early sweep exit", "handler absent (hooks inert)"]));
+    let extra = Extra {
+        coverage,
+        assumptions: vec![
+            "second clause of C09 only; operands from the exact rectilinear integer family (rectangles with rectangular holes, parts touching at corners at most), exact offsets and power-of-two scales".into(),
+            "region equality is decided exactly on the compressed grid of result coordinates; bit identity is demanded where both executions share the instruction prefix".into(),
+        ],
+        rule: "one evaluation = one operand pair, each selected operation executed under 5 configurations (both fast paths off = reference; early exit on; shortcut on; both on; no handler) and compared; distinct_nontrivial = distinct tuples (operation, trait pairing, float type, placement kind/side/gap, which fast paths fired per configuration, result empty?)".into(),
+        level: "exploration",
+        extra_violations: 0,
+        extra_evaluations: 0,
+    };
+    (plan, extra)
+}
+
+fn plan_c12(tier: Tier) -> (Plan, Extra) {
+    let workers = batch::workers_default();
+    let plan = match tier {
+        Tier::Quick => Plan { runs: 60_000, budget_s: 150.0, selftest_runs: 1500, workers },
+        Tier::Thorough => Plan { runs: 10_000_000, budget_s: 3000.0, selftest_runs: 20000, workers },
+    };
+    let mut coverage = Map::new();
+    coverage.insert("components".into(), json!({
+        "real": ["geo_booleanop::boolean (all four BooleanOp impls, f64 and f32)", "geo_booleanop::splay", "geo-types", "robust", "std collections (BinaryHeap, HashSet, Rc)"],
+        "simulated": ["caller threads (real OS threads, one runnable at a time, seeded baton scheduler; scheduling points at call boundaries and at every sweep event)",
+            "heap (seeded arena: placement order, fill, poison-on-free, reallocation always moves)", "OS randomness (getrandom interposed: per-thread hash keys from the seed)",
+            "cancellation (panic injected at the k-th sweep event)", "thread churn (retire: the rest of a script continues on a fresh OS thread)"],
+        "stubbed": []}));
+    coverage.insert("fault_kinds".into(), json!(["heap placement/fill/poison", "hash keys", "call history on the same thread", "thread placement and churn", "event-level overlap with other clients' calls", "cancellation inside the sweep", "operands passed as short-lived temporaries (address reuse)"]));
+    let extra = Extra {
+        coverage,
+        assumptions: vec![
+            "one simulated client runs at any instant (interleaving semantics at call and sweep-event granularity); instruction-level preemption and data races are covered only by the Miri engine on tiny inputs".into(),
+            "reference = the same call evaluated in isolation on the harness thread before any client starts".into(),
+        ],
+        rule: "one evaluation = one world: a pool of 2-6 shared operands, 1-4 client scripts of 1-12 steps (calls through all trait pairings, results fed back, cancellations, thread retirement), a seeded schedule; every completed call is compared bit for bit with its isolated reference and every operand image is re-checked after every call; distinct_nontrivial = distinct schedule strings among worlds with at least one context switch; distinct_secondary_measure = distinct tuples (operation, pairing, float, heap policy, fresh thread?, after cancellation?, temporaries?, other calls in flight, completed?)".into(),
+        level: "exploration",
+        extra_violations: 0,
+        extra_evaluations: 0,
+    };
+    (plan, extra)
+}
+
 fn plan_c18(tier: Tier) -> (Plan, Extra) {
     let workers = batch::workers_default().min(12);
     let g = c18::grid_len(tier);
@@ -75,6 +134,8 @@ fn plan_c18(tier: Tier) -> (Plan, Extra) {
 }
 
 fn main() {
+    // the main thread takes its std hash keys now, so that no world's count of answered getrandom calls includes them
+    std::hint::black_box(std::collections::hash_map::RandomState::new());
     let args: Vec<String> = std::env::args().collect();
     if args.len() < 3 {
         std::process::exit(usage());
@@ -83,6 +144,8 @@ fn main() {
         "worker" => {
             silence_panics();
             match args[2].as_str() {
+                "C09" => batch::worker_main::<c09::C09World>(&args[3..]),
+                "C12" => batch::worker_main::<c12::C12World>(&args[3..]),
                 "C17" => batch::worker_main::<c17::C17World>(&args[3..]),
                 "C18" => batch::worker_main::<c18::C18World>(&args[3..]),
                 _ => usage(),
@@ -100,6 +163,8 @@ fn main() {
             };
             let v: Value = serde_json::from_str(&text).unwrap_or(Value::Null);
             match v["property"].as_str() {
+                Some("C09") => batch::replay_main::<c09::C09World>(&v),
+                Some("C12") => batch::replay_main::<c12::C12World>(&v),
                 Some("C17") => batch::replay_main::<c17::C17World>(&v),
                 Some("C18") => batch::replay_main::<c18::C18World>(&v),
                 _ => {
@@ -114,6 +179,14 @@ fn main() {
                 "C17" => {
                     let (plan, extra) = plan_c17(tier);
                     batch::parent_main::<c17::C17World>(tier, plan, extra)
+                }
+                "C09" => {
+                    let (plan, extra) = plan_c09(tier);
+                    batch::parent_main::<c09::C09World>(tier, plan, extra)
+                }
+                "C12" => {
+                    let (plan, extra) = plan_c12(tier);
+                    batch::parent_main::<c12::C12World>(tier, plan, extra)
                 }
                 "C18" => {
                     let (plan, extra) = plan_c18(tier);
